@@ -91,6 +91,23 @@ class CallGraph:
             cs.method_name = fn.attr
         elif isinstance(fn, ast.Name):
             cs.method_name = fn.id
+        if isinstance(fn, ast.Attribute) and isinstance(fn.value, ast.Call) and isinstance(fn.value.func, ast.Name) and fn.value.func.id == "super" and f.cls is not None:
+            # super().m(...): the next definition of m above the defining class
+            todo = list(f.cls.bases)
+            while todo:
+                b = todo.pop(0)
+                if b.startswith("ext:"):
+                    cs.externals.append("%s.%s" % (b[4:], fn.attr)); cs.how = "super-external"
+                    break
+                bc = self.prog.classes.get(b)
+                if bc is None:
+                    continue
+                if fn.attr in bc.methods:
+                    cs.callees.append(bc.methods[fn.attr].qual); cs.how = "super"
+                    break
+                todo += bc.bases
+            if cs.callees or cs.externals:
+                return cs
         for u in members(t):
             if u[0] == "func":
                 cs.callees.append(u[1]); cs.how = "direct"
